@@ -20,6 +20,7 @@ import (
 	"strings"
 	"sync"
 	"time"
+	"unsafe"
 )
 
 // ---------------------------------------------------------------------------
@@ -110,6 +111,8 @@ type Exec struct {
 	clock    time.Time
 	uuidCtr  uint64
 	ticks    int64
+	chans    map[unsafe.Pointer]*mchan
+	atomics  map[unsafe.Pointer]*vclock
 	races    *raceState
 	mu       sync.Mutex // protects nothing under the baton; used by the watchdog only
 }
@@ -363,8 +366,8 @@ func EnvChoice(kind string, n int) int {
 	if e == nil || e.aborting || n <= 1 || e.running == nil {
 		return 0
 	}
-	if e.opt.EnvDeviations == nil || !e.opt.EnvDeviations[kind] {
-		return 0
+	if kind != "select" && (e.opt.EnvDeviations == nil || !e.opt.EnvDeviations[kind]) {
+		return 0 // (the choice among ready select clauses is always a choice point)
 	}
 	idx := 0
 	if e.pos < len(e.opt.Choices) {
